@@ -27,8 +27,8 @@ ASSUMPTIONS = ['Euler-angle extraction gives the same bits for an element whatev
                'if not, the run is inconclusive)', 'in 2-D histories the states given to set_pva have VD = 0 (non-zero VD is C13)']
 REQUIRED_OBS = ['set_pva_with_permuted_labels', 'set_pva_angles_kept', 'tables_with_permuted_columns', 'model_comparisons', 'predict_calls', 'set_pva_calls', 'growth_events', 'empty_chunks', 'kernel_calls',
                 'invariant_evaluations', 'chunks_ending_exactly_at_capacity', 'predict_when_full', 'boundscheck_histories',
-                'index_conservation_checked', 'stale_return_checked', 'histories_with_repeated_stamps', 'chunks_ending_before_repeated_stamp', 'huge_single_calls']
-REQUIRED_CLASSES = {'all': ['3d', '2d', 'long', 'boundscheck', 'repeated_stamps', 'huge']}
+                'index_conservation_checked', 'stale_return_checked', 'histories_at_gimbal_lock', 'set_pva_at_gimbal_lock', 'histories_with_repeated_stamps', 'chunks_ending_before_repeated_stamp', 'huge_single_calls']
+REQUIRED_CLASSES = {'all': ['3d', '2d', 'long', 'boundscheck', 'repeated_stamps', 'huge', 'vertical']}
 STATE = {}
 
 
@@ -57,6 +57,9 @@ def cases(seed, tier):
     for i in range(nr):
         out.append(dict(seed=int(seed) * 1000003 + 600000 + i, cls='repeated_stamps', with_altitude=i % 2 == 0, initial_size=2 + (i * 7) % 63,
                         n_inc=20 + (i * 37) % 181, repeats=True, cost=1))
+    # sustained gimbal lock (pitch exactly +-90 on every row) with set_pva relabelling the heading
+    for i in range(60 if tier == 'quick' else 1500):
+        out.append(dict(seed=int(seed) * 1000003 + 650000 + i, cls='vertical', with_altitude=i % 2 == 0, initial_size=2 + (i * 7) % 63, n_inc=20 + (i * 37) % 90, vertical=True, cost=2))
     # single calls of more than a million rows on the default capacity (growth-step logic, 32-bit counters, ...)
     for i in range(1 if tier == 'quick' else 6):
         out.append(dict(seed=int(seed) * 1000003 + 700000 + i, cls='huge', with_altitude=i % 2 == 0,
